@@ -927,9 +927,11 @@ impl TypeChecker {
 
                 let ctx = ctx.with_type(Type::bool());
 
-                let mut diverges = false;
-                diverges |= self.expr(scope, &ctx, left)?;
-                diverges |= self.expr(scope, &ctx, right)?;
+                // The right operand is only evaluated if the left operand
+                // does not decide the result, so the expression only
+                // diverges if the left operand does.
+                let diverges = self.expr(scope, &ctx, left)?;
+                let _ = self.expr(scope, &ctx, right)?;
                 Ok(diverges)
             }
             Lt | Le | Gt | Ge => {
